@@ -23,7 +23,11 @@ RULE = (
     "every split point k (pipe[k:] on the manual prefix, pipe[:k+1].transform where the API accepts it), mkpipe names "
     "unique and resolving to their own step, the pipeline's own copy()/rebuild; (method) EVERY class of the table "
     "generated from the tree under test x every entry of its canonical-argument table (the run fails when a class has "
-    "none) and (mk) mkagg/mktransformer-made classes: copy(), type(m)(**get_parameters()), copy(**override) — "
+    "none) and (mk) mkagg/mktransformer-made classes (random hyper-parameter sets with truthy, falsy and None values given / "
+    "overridden; plus, in every run, for each maker x each hyper-parameter with a TRUTHY declared default (power=2.0, "
+    "reverse=True, label='score', one of the pool) x each falsy value (0, 0.0, False, '', None): built truthy -> overridden "
+    "falsy -> back, and built falsy -> overridden truthy -> falsy; the function's output depends on every hyper-parameter "
+    "and is also computed directly from the plain function under the intended values): copy(), type(m)(**get_parameters()), copy(**override) — "
     "parameters, constructor-argument attributes and outputs on a random in-domain matrix — and then, on the SAME "
     "instance, a random program of two override copies (the entry's own override and another entry's, either order) "
     "interleaved with writes into dictionaries returned by get_parameters() (update with an override / values changed "
@@ -645,16 +649,12 @@ def dm_for_class(rng, cls):
 # =========================================================================== user classes (mkagg / mktransformer / mocks)
 
 
-def make_user_class(u):
-    """{"maker": "agg"|"trans", "name": str, "hparams": [[k, VAL]..]}: a class made by the decorators of extend.py whose
-    output depends on every numeric hyper-parameter"""
-    import warnings
-
-    from skcriteria.extend import mkagg, mktransformer
+def user_fn(u):
+    """the plain function behind a user class: its output depends on every numeric / boolean / string hyper-parameter
+    (None, 0, 0.0, False and '' all contribute nothing: a truthy value and a falsy one never give the same output)"""
     from skcriteria.utils import rank
 
-    hp = {k: dec(v, k) for k, v in u["hparams"]}
-    names = list(hp)
+    names = [k for k, _ in u["hparams"]]
 
     def tot(hparams):
         t = 0.0
@@ -677,8 +677,44 @@ def make_user_class(u):
             return {"matrix": np.asarray(matrix, dtype=float) * (1.0 + tot(hparams)) + tot(hparams)}
     fn.__name__ = u["name"]
     fn.__qualname__ = u["name"]
+    return fn
+
+
+def make_user_class(u):
+    """{"maker": "agg"|"trans", "name": str, "hparams": [[k, VAL]..]}: a class made by the decorators of extend.py whose
+    output depends on every numeric hyper-parameter"""
+    import warnings
+
+    from skcriteria.extend import mkagg, mktransformer
+
+    hp = {k: dec(v, k) for k, v in u["hparams"]}
+    fn = user_fn(u)
     with warnings.catch_warnings(record=True):
         return (mkagg if u["maker"] == "agg" else mktransformer)(**hp)(fn)
+
+
+def user_numbers(u, out):
+    """the numbers a user-made object computed: the score (mkagg) / the matrix (mktransformer), as exact hex strings"""
+    if out[0] != "ok":
+        return {"err": out[1]}
+    arr = out[1].e_["score"] if u["maker"] == "agg" else out[1].matrix.to_numpy(dtype=float)
+    return [_num(v) for v in np.asarray(arr, dtype=float).ravel()]
+
+
+def user_expected(u, values, dm):
+    """the same numbers from the plain function under the hyper-parameter values `values` ([[name, VAL]..] laid over the
+    declared defaults) - no generated class, no __init__, no copy involved"""
+    import types
+
+    hp = {k: dec(v, k) for k, v in u["hparams"]}
+    for k, v in values:
+        if k not in hp:
+            return None
+        hp[k] = dec(v, k)
+    d = dm.to_dict()
+    r = user_fn(u)(matrix=d["matrix"], weights=d["weights"], objectives=d["objectives"], hparams=types.SimpleNamespace(**hp))
+    arr = r[1]["score"] if u["maker"] == "agg" else r["matrix"]
+    return [_num(v) for v in np.asarray(arr, dtype=float).ravel()]
 
 
 class _Rec:
@@ -942,6 +978,40 @@ def gen_trace(rng):
 HP_POOL = [("scale", Fl(2.0)), ("shift", I(1)), ("tag", S("x")), ("flag", True), ("alpha", Fl(0.5)), ("k", I(3)), ("mode", S("fast")), ("opt", None)]
 
 
+FALSY = [I(0), Fl(0.0), False, S(""), None]
+HP_TRUTHY = [("power", Fl(2.0)), ("reverse", True), ("label", S("score"))]
+
+
+def gen_mk_falsy(rng, reps):
+    """mkagg / mktransformer classes declaring a hyper-parameter with a TRUTHY default (power=2.0, reverse=True,
+    label='score', one more of the pool) next to 0-2 others, x every falsy value (0, 0.0, False, '', None):
+    (a) built with the default or a truthy value, copy(**{name: falsy}), and later back to a truthy value;
+    (b) built with the falsy value (so copy() / rebuild from get_parameters() carry it), copy(**{name: truthy}), and later
+        to a falsy value again.  The other hyper-parameters are sometimes given / overridden along, falsy values included."""
+    cases = []
+    for _ in range(reps):
+        for maker in ("agg", "trans"):
+            for name, default in HP_TRUTHY + [rng.choice([h for h in HP_POOL if h[1] is not None])]:
+                others = [h for h in rng.sample(HP_POOL, rng.randint(0, 2)) if h[0] != name]
+                hp = [[name, default]] + [[k, v] for k, v in others]
+                rng.shuffle(hp)
+                onames = [k for k, _ in others]
+
+                def side(p=0.4):
+                    return [[k, rng.choice(FALSY + [Fl(rng.randint(1, 8) / 4), I(rng.randint(1, 6)), S("zzz"), True])] for k in onames if rng.random() < p]
+
+                for fz in FALSY:
+                    user = {"maker": maker, "name": rng.choice(["UserM", "Foo", "Foo_1"]), "hparams": hp}
+                    truthy = rng.choice([default, default, Fl(1.25), I(5), S("yy"), True])
+                    to_f, back = [[name, fz]] + side(), [[name, truthy]] + side()
+                    kw = side() + ([[name, truthy]] if rng.random() < 0.5 else [])
+                    cases.append({"kind": "mk", "user": user, "kw": kw, "override": to_f, "dm": gen_dm(rng, mix="max"),
+                                  "seq": gen_seq(rng, [(to_f, True), (back, True), ([[name, rng.choice(FALSY)]], True)])})
+                    cases.append({"kind": "mk", "user": user, "kw": [[name, fz]] + side(), "override": back, "dm": gen_dm(rng, mix="max"),
+                                  "seq": gen_seq(rng, [(back, True), ([[name, rng.choice(FALSY)]] + side(), True), (to_f, True)])})
+    return cases
+
+
 def gen_seq(rng, pool):
     """a program of parameter-level calls made one after the other on ONE instance m.
     pool: [(override, override_is_canonical)..], the first one being the case's own override.  Ops:
@@ -1004,9 +1074,9 @@ def gen(ctx):
     for _ in range(ctx.n(30, 400)):
         hp = rng.sample(HP_POOL, rng.randint(0, 4))
         names = [k for k, _ in hp]
-        kw = [[k, rng.choice([Fl(rng.randint(1, 8) / 4), I(rng.randint(0, 3)), S("yy"), False])] for k in names if rng.random() < 0.5]
+        kw = [[k, rng.choice([Fl(rng.randint(1, 8) / 4), I(rng.randint(0, 3)), S("yy"), False, rng.choice(FALSY)])] for k in names if rng.random() < 0.5]
         def mk_ov(p=0.5):
-            return [[k, rng.choice([Fl(rng.randint(1, 8) / 4), I(rng.randint(4, 6)), S("zzz"), True])] for k in names if rng.random() < p]
+            return [[k, rng.choice([Fl(rng.randint(1, 8) / 4), I(rng.randint(4, 6)), S("zzz"), True, rng.choice(FALSY)])] for k in names if rng.random() < p]
 
         ov = mk_ov()
         if rng.random() < 0.08:
@@ -1015,6 +1085,7 @@ def gen(ctx):
                                             "hparams": [[k, v] for k, v in hp]},
                       "kw": kw, "override": ov, "dm": gen_dm(rng, mix="max"),
                       "seq": gen_seq(rng, [(ov, True), (mk_ov(0.7), True), (mk_ov(0.7), True)])})
+    cases.extend(gen_mk_falsy(rng, ctx.n(1, 4)))
     # ---- pipelines
     for _ in range(ctx.n(110, 2600)):
         d = gen_dm(rng, min_m=4, max_m=10)
@@ -1262,8 +1333,17 @@ def obs_method(case):
                 o["detail" + tag] = [brief(out0), brief(r)]
     if c3[0] == "ok":
         if direct[0] == "ok":
-            o["out3"] = ocanon(_run_output(c3[1], dm))
+            r3 = _run_output(c3[1], dm)
+            o["out3"] = ocanon(r3)
             o["out3_direct"] = ocanon(_run_output(direct[1], dm))
+            if case["kind"] == "mk":
+                o["num3"] = user_numbers(case["user"], r3)
+                o["fn3"] = user_expected(case["user"], list(case["kw"]) + list(case["override"]), dm)
+    if case["kind"] == "mk":
+        # the plain function under the hyper-parameters the object was asked to hold, next to what the object computes
+        o["num0"] = user_numbers(case["user"], out0)
+        o["fn0"] = user_expected(case["user"], case["kw"], dm)
+        o["intended"] = sorted([k, v] for k, v in dict([(k, v) for k, v in case["user"]["hparams"]] + [(k, v) for k, v in case["kw"]]).items())
     if late is not None:
         for tag, c in (("late_copy", late[0]), ("late_rebuild", late[1])):
             if c is not None and c[0] == "ok":
@@ -1674,6 +1754,16 @@ def judge(case, obs, replies):
         P0 = obs["P0"]
         if "err" in r0 or sorted(r0["params"]) != P0:
             corr("%s: parameters after construction, model vs implementation" % name, r0, P0)
+        if kind == "mk":
+            # P = the declared defaults overlaid with the given arguments is a complete parameter dictionary (the
+            # get_parameters() of the object asked for): type(m)(**P) has the parameters P and computes the function under P
+            P = [[k, enc(dec(v, k))] for k, v in obs["intended"]]
+            if P != P0:
+                prop("%s: built from the parameter dictionary %s (declared defaults %s, given %s), get_parameters() does not give it back"
+                     % (name, json.dumps(dict(P)), json.dumps(dict(case["user"]["hparams"])), json.dumps(dict(case["kw"]))), P, P0)
+            elif obs.get("fn0") is not None and obs.get("num0") != obs["fn0"]:
+                prop("%s: the object built with hyper-parameters %s does not give the output of its function under them" % (name, json.dumps(dict(P))),
+                     obs["fn0"], obs.get("num0"))
         # --- copy() and reconstruction
         for tag, how in (("1", "copy()"), ("2", "type(m)(**m.get_parameters())")):
             if "err" + tag in obs:
@@ -1713,6 +1803,9 @@ def judge(case, obs, replies):
                 prop("%s: copy(**override) changed exposed constructor arguments that were not overridden: %s" % (name, moved), obs["A0"], obs["A3"])
             if "out3" in obs and obs["out3"] != obs["out3_direct"]:
                 prop("%s: copy(**override) behaves differently from the object built with the same arguments" % name, obs["out3_direct"], obs["out3"])
+            if kind == "mk" and obs.get("fn3") is not None and "num3" in obs and obs["num3"] != obs["fn3"]:
+                prop("%s: copy(**%s) does not give the output of the function under the overridden hyper-parameters (the override is "
+                     "not what the copy computes with)" % (name, json.dumps(ov, sort_keys=True)), obs["fn3"], obs["num3"])
             if "err" in r3 or sorted(r3["params"]) != obs["P3"]:
                 corr("%s: parameters after copy(**override), model vs implementation" % name, r3, obs["P3"])
         # --- the same calls later in the life of the same instance
